@@ -13,8 +13,9 @@ for d in sorted(glob.glob('/verif/seeded/C*')):
                  'ported' if m.get('ported') else ''))
 out = ['# Seeded property-breaking changes', '',
        'Each directory holds `patch.diff` (applies to the repaired /repo HEAD), `demo.py` (passes without / fails with the patch) and',
-       '`meta.json`. All were confirmed by `tools/seed_matrix.py`: unedited suite passes with the patch, demo flips, and the named check',
-       'reports violations on every run.  "ported" = the sub-agent wrote it against an earlier tree and a later `fix:` touched the same lines;',
+       '`meta.json`. All were confirmed by `tools/seed_matrix.py`: unedited suite passes with the patch, demo flips.  The named check reports',
+       'violations on every run, except for the rows with 0 VIOLATION lines: those changes are reported by no check (the reason is in their',
+       '`meta.json` under `detected_by.not_reported_because` and in DESIGN.md section 20).  "ported" = the sub-agent wrote it against an earlier tree and a later `fix:` touched the same lines;',
        'the same defect idea was re-applied to the repaired code.', '',
        '| seed | property | change | needs | caught by | VIOLATION lines | |', '|---|---|---|---|---|---|---|']
 for r in rows:
